@@ -43,6 +43,11 @@ fn all_flips(total: usize) -> impl Iterator<Item = Edit> + Send {
     (0..total as u32).flat_map(|pos| (0..8u8).map(move |bit| Edit::Flip { pos, bit }))
 }
 
+/// every deletion of 1..=8 bytes at every position of a `total`-byte region
+fn all_deletions(total: usize) -> impl Iterator<Item = Edit> + Send {
+    (0..total as u32).flat_map(|pos| (1..=8u8).map(move |n| Edit::Delete { pos, n }))
+}
+
 /// n flips at seed-chosen positions plus the first and last byte of every `stride`-sized block
 fn sampled_flips(total: usize, n: usize, stride: usize, seed: u64) -> Vec<Edit> {
     let mut v = Vec::new();
@@ -226,7 +231,7 @@ fn main() {
     }
     {
         let arts: Vec<&'static str> = art::ENC_FIXTURES.into_iter().filter(|n| ok(n)).collect();
-        let n = tier.pick(1500, 60_000);
+        let n = tier.pick(4000, 100_000);
         ck.run(
             Section::enumerate(
                 "enc-fixture-page-flips",
@@ -247,7 +252,7 @@ fn main() {
         ck.run(
             Section::pbt(
                 "enc-edits",
-                tier.pick(3000, 300_000),
+                tier.pick(6000, 600_000),
                 move || {
                     (names(&arts), prop_oneof![5 => Just(EncRegion::Pages), 1 => Just(EncRegion::Sums)], edit::strat::edits(true))
                         .prop_map(|(art, region, edit)| EncPbt { art, region, edit })
@@ -275,10 +280,23 @@ fn main() {
             )
             .shards(16),
         );
+        let a3 = a2.clone();
+        ck.run(
+            Section::enumerate(
+                "aidx-footer-deletions",
+                "exhaustive: every deletion of 1..=8 bytes starting at every position of footer bytes [8..28) (incl. cutting off the tail of the file) of the same 7 indices; through ArchiveIndex::parse and ChunkedArchiveIndex::open",
+                move || {
+                    let arts = a3.clone();
+                    Box::new(arts.into_iter().flat_map(|n| all_deletions(20).map(move |edit| AidxCase { art: n.into(), edit, chunked: true })))
+                },
+                check_aidx,
+            )
+            .shards(16),
+        );
         ck.run(
             Section::pbt(
                 "aidx-edits",
-                tier.pick(2000, 200_000),
+                tier.pick(4000, 400_000),
                 move || (names(&a2), edit::strat::edits(true), proptest::bool::weighted(0.2)).prop_map(|(art, edit, chunked)| (ArtPbt { art, edit }, chunked)).boxed(),
                 |c: &(ArtPbt, bool)| check_aidx(&AidxCase { art: c.0.art.clone(), edit: c.0.edit.resolve(20), chunked: c.1 }),
             )
@@ -313,7 +331,7 @@ fn main() {
         ck.run(
             Section::pbt(
                 "lru-edits",
-                tier.pick(2000, 200_000),
+                tier.pick(4000, 400_000),
                 move || {
                     (
                         names(&a2),
@@ -356,7 +374,7 @@ fn main() {
         ck.run(
             Section::enumerate(
                 "update-entry-flips",
-                "exhaustive: every single-bit flip of bytes [0..23) (guard, key, packed location, size, status) of 8 update entries (all four statuses, extreme and seed-chosen fields), and every pair of bit flips for the first 4 of them; through UpdateEntry::from_bytes + validate_hash_guard",
+                "exhaustive: every single-bit flip of bytes [0..23) (guard, key, packed location, size, status) of 8 update entries (all four statuses, extreme and seed-chosen fields), every deletion of 1..=8 bytes at every position, and every pair of bit flips for the first 4 of them; through UpdateEntry::from_bytes + validate_hash_guard",
                 move || {
                     let specs = specs.clone();
                     let pairs = specs.clone().into_iter().take(4).flat_map(|ent| {
@@ -365,7 +383,8 @@ fn main() {
                             (a + 1..184).map(move |b| EntCase { ent: ent.clone(), edit: Edit::Flip2 { pos_a: a / 8, bit_a: (a % 8) as u8, pos_b: b / 8, bit_b: (b % 8) as u8 } })
                         })
                     });
-                    Box::new(specs.into_iter().flat_map(|ent| all_flips(23).map(move |edit| EntCase { ent: ent.clone(), edit })).chain(pairs))
+                    let dels = specs.clone().into_iter().flat_map(|ent| all_deletions(23).map(move |edit| EntCase { ent: ent.clone(), edit }));
+                    Box::new(specs.into_iter().flat_map(|ent| all_flips(23).map(move |edit| EntCase { ent: ent.clone(), edit })).chain(dels).chain(pairs))
                 },
                 check_upd_entry,
             )
@@ -374,7 +393,7 @@ fn main() {
         ck.run(
             Section::pbt(
                 "update-entry-edits",
-                tier.pick(20_000, 2_000_000),
+                tier.pick(40_000, 4_000_000),
                 || {
                     (any::<u64>(), 0u16..1024, prop_oneof![Just(0u32), Just(0x3FFF_FFFFu32), 0u32..(1 << 30)], any::<u32>(), 0u8..4, edit::strat::edits(true))
                         .prop_map(|(key_seed, id, off, size, status, edit)| EntPbt { ent: EntSpec { key_seed, id, off, size, status }, edit })
@@ -405,7 +424,7 @@ fn main() {
         ck.run(
             Section::pbt(
                 "update-section-edits",
-                tier.pick(5000, 500_000),
+                tier.pick(10_000, 1_000_000),
                 move || (names(&a2), edit::strat::edits(true)).prop_map(|(art, edit)| ArtPbt { art, edit }).boxed(),
                 |c: &ArtPbt| check_upd_section(&ArtEdit { art: c.art.clone(), edit: c.edit.resolve(total_of(&c.art, EncRegion::Pages)) }),
             )
@@ -428,7 +447,7 @@ fn main() {
         ck.run(
             Section::pbt(
                 "idx-loader-edits",
-                tier.pick(400, 40_000),
+                tier.pick(1500, 100_000),
                 move || (names(&a2), edit::strat::edits(true)).prop_map(|(art, edit)| ArtPbt { art, edit }).boxed(),
                 |c: &ArtPbt| check_idx(&ArtEdit { art: c.art.clone(), edit: c.edit.resolve(total_of(&c.art, EncRegion::Pages)) }),
             )
@@ -441,7 +460,7 @@ fn main() {
         ck.run(
             Section::enumerate(
                 "local-header-flips",
-                "exhaustive: every single-bit flip of bytes [0..30) of 3 headers x base offsets {0,1,2,3,30,4097,65534,65535}, and every pair of bit flips for one header x base offsets {0,1,2,3}; through LocalHeader::from_bytes + validate_checksums(base)",
+                "exhaustive: every single-bit flip of bytes [0..30) of 3 headers x base offsets {0,1,2,3,30,4097,65534,65535}, every deletion of 1..=8 bytes at every position and every pair of bit flips for one header x base offsets {0,1,2,3}; through LocalHeader::from_bytes + validate_checksums(base)",
                 move || {
                     let specs: Vec<(u64, u32)> = (0..3u64).map(|i| (seed ^ 0x4D ^ i, [0u32, 1234, u32::MAX - 30][i as usize])).collect();
                     let (ks, sz) = specs[1];
@@ -456,6 +475,7 @@ fn main() {
                             .flat_map(|(key_seed, blte_size)| {
                                 [0u32, 1, 2, 3, 30, 4097, 65534, 65535].into_iter().flat_map(move |base| all_flips(30).map(move |edit| HdrCase { key_seed, blte_size, base, edit }))
                             })
+                            .chain([0u32, 1, 2, 3].into_iter().flat_map(move |base| all_deletions(30).map(move |edit| HdrCase { key_seed: ks, blte_size: sz, base, edit })))
                             .chain(pairs),
                     )
                 },
@@ -466,7 +486,7 @@ fn main() {
         ck.run(
             Section::pbt(
                 "local-header-edits",
-                tier.pick(20_000, 2_000_000),
+                tier.pick(40_000, 4_000_000),
                 || {
                     (any::<u64>(), prop_oneof![Just(0u32), any::<u32>(), 0u32..100_000], prop_oneof![0u32..8, any::<u32>()], edit::strat::edits(true))
                         .prop_map(|(key_seed, blte_size, base, edit)| HdrPbt { key_seed, blte_size, base, edit })
@@ -520,7 +540,7 @@ fn main() {
         ck.run(
             Section::pbt(
                 "v1-edits",
-                tier.pick(5000, 500_000),
+                tier.pick(10_000, 1_000_000),
                 move || {
                     let r2 = r2.clone();
                     let n = r2.len().max(1);
@@ -536,9 +556,9 @@ fn main() {
     }
 
     // --------------------------------------------------------------- caches
-    ck.run(Section::pbt("hooks-direct", tier.pick(3000, 300_000), caches::hooks_strategy, caches::check_hooks).shards(16));
-    ck.run(Section::pbt("cac-sequences", tier.pick(2000, 200_000), caches::cac_strategy, caches::check_cac).shards(16));
-    ck.run(Section::pbt("ml-sequences", tier.pick(1500, 150_000), caches::ml_strategy, caches::check_ml).shards(16));
+    ck.run(Section::pbt("hooks-direct", tier.pick(6000, 600_000), caches::hooks_strategy, caches::check_hooks).shards(16));
+    ck.run(Section::pbt("cac-sequences", tier.pick(6000, 400_000), caches::cac_strategy, caches::check_cac).shards(16));
+    ck.run(Section::pbt("ml-sequences", tier.pick(5000, 300_000), caches::ml_strategy, caches::check_ml).shards(16));
 
     let vac = VACUOUS.load(Ordering::Relaxed);
     if vac > 0 {
